@@ -100,6 +100,38 @@ def run(rep, tier, seed, replay=None):
         return out
 
     vlib.correspond(rep, dlines, oracle=doracle, trivial=netprops.trivial, tag="c09")
+    # ---- the Java handshake names the host the CALLER gave and the port the query goes to, whatever the name looks like
+    # (an IPv6 literal, a name with a port-like suffix, colons, brackets): handshake = id 0, version, the name's bytes, the
+    # destination port big-endian, next state 1 — written here from the protocol page, not taken from the model
+    from props.families import mcjava as _mj
+    HOSTS = ["2001:db8::1", "::1", "play.example.org:25577", "a:0", "x:65535", "x:65536", "[::1]:25565", "[2001:db8::1]", "host:", ":25565", "::",
+             "1:2", "fe80::1%eth0", "mc.example.org", "gamedig:1", "9", ":", "a:b:1", "0:0:0:0:0:0:0:1"]
+    hs_lines, hs_meta = [], {}
+    jv = [v for v in valids if v.want.startswith("OK") and (v.fam == "mcjava" or (v.fam == "mcauto" and v.want.endswith(";J}")))]
+    for k, host in enumerate(HOSTS * (1 if tier == "quick" else 6)):
+        if not jv:
+            break
+        v = jv[(k * 7) % len(jv)]
+        c = v.case()
+        c.args[2] = host.encode().hex()
+        cid = f"{v.id}hs{k}"
+        hs_lines.append(c.line(cid))
+        pv, port = int(c.args[1]), int(c.args[0])
+        body = b"\x00" + _mj._varint(pv) + _mj._varint(len(host.encode())) + host.encode() + port.to_bytes(2, "big") + b"\x01"
+        hs_meta[cid] = (host, (_mj._varint(len(body)) + body).hex())
+
+    def hs_oracle(case, impl, model, panic):
+        out = netprops.crash_oracle(case, impl, model, panic)
+        m = hs_meta.get(case.split(" ", 1)[0])
+        if m is None or out:
+            return out
+        sends = [d for (_, _, d, _) in vlib.sends_of(impl)]
+        rep.count("java-handshake-host")
+        if not sends or sends[0] != m[1]:
+            out.append(("request-bytes:java-handshake", f"host name {m[0]!r}: handshake sent {sends[:1]}, the protocol's is {m[1]}"))
+        return out
+
+    vlib.correspond(rep, hs_lines, oracle=hs_oracle, trivial=netprops.trivial, tag="c09")
     hostile = []
     rnd.shuffle(valids)
     for k, v in enumerate(valids[: (300 if tier == "quick" else 5000) * len(netprops.FAMILIES)]):
